@@ -196,7 +196,8 @@ def _struct_failures(db1, db2, case: dict, keyed: bool = False, clause: str = "s
                 seen.add((d.key, d.mode))
                 fails.append(core.Failure(clause, d.describe(), case,
                                           {"bucket": f"{d.key}|{d.mode}", "key": d.key, "mode": d.mode,
-                                           "path": "/".join(f"{c}.{f}" for c, f, _ in d.path)}))
+                                           "path": "/".join(f"{c}.{f}" for c, f, _ in d.path),
+                                           "a": dcdiff.short(d.a), "b": dcdiff.short(d.b)}))
     return fails
 
 
@@ -264,7 +265,8 @@ def evaluate(db1, case: dict, classes: set, perturbed: Optional[List[str]] = Non
                 ln = next((i for i, (x, y) in enumerate(zip(l1, l2)) if x != y), min(len(l1), len(l2)))
                 x = l1[ln].strip() if ln < len(l1) else "<eof>"
                 y = l2[ln].strip() if ln < len(l2) else "<eof>"
-                tag = (re.findall(r"<([A-Za-z_][\w:.-]*)", x) or re.findall(r"<([A-Za-z_][\w:.-]*)", y) or ["?"])[0]
+                tag = (re.findall(r"<([A-Za-z_][\w:.-]*)", x + " " + y)
+                       or re.findall(r"([A-Za-z_][\w:.-]*)=", x + " " + y) or ["?"])[0]
                 sk = "+".join(sorted({f.features["bucket"] for f in sf})) or "structure-equal"
                 fails.append(core.Failure("idempotence", f"second write differs in {os.path.splitext(n0)[1]} line "
                                           f"{ln + 1}: {x[:80]!r} -> {y[:80]!r}", case,
@@ -514,15 +516,21 @@ def run_shard(spec, seed, tier):
 
     if what == "matrix":
         pts = _all_points()
-        mine = [p for j, p in enumerate(pts) if j % N_MATRIX_SHARDS == i]
         if tier == "quick":
-            rnd = random.Random(seed)
-            k = max(1, (len(mine) + QUICK_SLICE - 1) // QUICK_SLICE)
-            mine = [mine[j] for j in sorted(rnd.sample(range(len(mine)), k))]
+            # a VERIF_SEED-selected 1/8 slice, the same in every shard, stratified by perturbation kind
+            gseed = os.environ.get("VERIF_SEED", "1")
+            sel: List[dict] = []
+            for kind in sorted({p["kind"] for p in pts}):
+                kp = [p for p in pts if p["kind"] == kind]
+                k = (len(kp) + QUICK_SLICE - 1) // QUICK_SLICE
+                rnd = random.Random(f"{gseed}|C11|{kind}")
+                sel += [kp[j] for j in sorted(rnd.sample(range(len(kp)), k))]
+            pts = sel
         else:
             res.exhaustive_subspaces.append(
                 f"single-attribute perturbation matrix of the shipped examples: {len(pts)} points "
                 "(class x field x variant x up to 3 instances with distinct None-profiles)")
+        mine = [p for j, p in enumerate(pts) if j % N_MATRIX_SHARDS == i]
         for pt in mine:
             prep = pp.apply_points(pt["db"], [pt])
             res.failures += _filter_known(_run_perturb_case(pt["db"], prep, res), kf, res)
